@@ -1229,6 +1229,9 @@ def match_finding(f, k):
             return False
     if r.get("moltypes") and inp.get("moltype") not in r["moltypes"]:
         return False
+    if r.get("got") and str(f.get("got")) != r["got"]:
+        # the finding explains one exception class only (another exception, or wrong rows, is a different violation)
+        return False
     return True
 
 
